@@ -54,6 +54,25 @@ def lis_file_for(File, lr_bytes, rng):
     pre = bytes([232, 0]) + b'leading record'
     post = bytes([232, 0]) + b'trailing'
     lrs = [pre, lr_bytes, post]
+    if rng.random() < 0.4:
+        # "after being written out": through the library's own writer, with physical record lengths that the record fills exactly
+        # (its length a multiple of the payload), nearly fills, or fits in with room to spare
+        from TotalDepth.LIS.core import PhysRec
+        rn, fn, ck = rng.choice([(0, 0, 0), (1, 0, 0), (1, 1, 1)])
+        tail = 2 * (rn + fn + ck)
+        L = len(lr_bytes)
+        k = rng.choice([1, 2, 3, 5])
+        pay = rng.choice([max(1, L // k) if L % k == 0 else max(1, -(-L // k)), max(1, L // k), L + 7, 65535 - 4 - tail])
+        pay = min(pay, 65535 - 4 - tail)
+        buf = io.BytesIO()
+        buf.close = lambda: None
+        fw = File.FileWrite(buf, 'verif', hasTif=rng.random() < 0.5, thePrLen=4 + tail + pay,
+                            thePrt=PhysRec.PhysRecTail(hasRecNum=bool(rn), fileNum=(7 if fn else None), hasCheckSum=bool(ck)))
+        positions = [fw.write(x) for x in lrs]
+        fw.close()
+        f = File.FileRead(io.BytesIO(buf.getvalue()), 'verif', keepGoing=False)
+        f.seekLr(positions[1])
+        return f
     maxpay = rng.choice([7, 12, 40, 1000, 60000])
     tif = rng.choice(['none', 'le'])
     splits = [GL.random_split(rng, len(x), maxpay) for x in lrs]
